@@ -40,7 +40,7 @@ def load_contracts(src):
     generic = {}
     for g in gens:
         if g.qual in LOOPS:
-            g.loops = LOOPS[g.qual]
+            g.loops = dict(LOOPS[g.qual])
         generic[g.qual] = g
         contract.GENERIC[g.qual] = g
         contract.REGISTRY.setdefault(g.qual, g)      # call sites of classes without a functional contract use the generic one
@@ -239,7 +239,7 @@ def conclude(pid, P, tier, seed, a, t0, src, results, oor, stats, functions, ext
     violations = []
     known_hits = []
     undecided = []
-    replay_dir = os.path.join(ROOT, 'replay', pid)
+    replay_dir = os.path.join(os.environ.get('PYVC_OUT', ROOT), 'replay', pid)
     C = None
 
     def native(r, vals):
@@ -421,8 +421,9 @@ def write_evidence(pid, P, tier, seed, results, discharged, failed, open_, oor, 
         'wall_s': round(wall, 2),
         'violations': len(violations),
     }
-    os.makedirs(os.path.join(ROOT, 'evidence'), exist_ok=True)
-    json.dump(ev, open(os.path.join(ROOT, 'evidence', pid + '.json'), 'w'), indent=1, default=str)
+    out = os.environ.get('PYVC_OUT', ROOT)
+    os.makedirs(os.path.join(out, 'evidence'), exist_ok=True)
+    json.dump(ev, open(os.path.join(out, 'evidence', pid + '.json'), 'w'), indent=1, default=str)
 
 
 if __name__ == '__main__':
